@@ -457,6 +457,20 @@ Fixpoint route (fs : list field) (vs : list value) (path : list string) (c : xml
   | _, _ => Err EShape
   end.
 
+(* grandchildren below a parent-path element [p] (one level of a>b) *)
+Fixpoint unmarshal_gkids (fs : list field) (vs : list value) (p : list string) (g : list xml)
+  : result (list value) :=
+  match g with
+  | [] => Ok vs
+  | gc :: g' =>
+      do y <- route fs vs p gc;
+      match y with
+      | inl (Some vs') => unmarshal_gkids fs vs' p g'
+      | inl None => unmarshal_gkids fs vs p g'
+      | inr _ => Err EUnsupported
+      end
+  end.
+
 (* children of a struct element: matched ones are unmarshalled, a parent-path prefix is
    descended into (one level: deeper paths are outside the fragment), others skipped *)
 Fixpoint unmarshal_kids (fs : list field) (vs : list value) (path : list string) (deep : bool)
@@ -470,17 +484,7 @@ Fixpoint unmarshal_kids (fs : list field) (vs : list value) (path : list string)
       | inl None => unmarshal_kids fs vs path deep r
       | inr p =>
           if deep then Err EUnsupported else
-          do vs' <- (fix inner (vs : list value) (g : list xml) : result (list value) :=
-                       match g with
-                       | [] => Ok vs
-                       | gc :: g' =>
-                           do y <- route fs vs p gc;
-                           match y with
-                           | inl (Some vs') => inner vs' g'
-                           | inl None => inner vs g'
-                           | inr _ => Err EUnsupported
-                           end
-                       end) vs (xkids c);
+          do vs' <- unmarshal_gkids fs vs p (xkids c);
           unmarshal_kids fs vs' path deep r
       end
   end.
